@@ -79,9 +79,11 @@ func allCombos() []combo {
 	return out
 }
 
-func (c combo) paramJSON() string {
+func (c combo) paramJSON() string { return c.paramJSONNamed("p") }
+
+func (c combo) paramJSONNamed(name string) string {
 	var b strings.Builder
-	fmt.Fprintf(&b, `{"name":"p","in":%q`, c.Loc)
+	fmt.Fprintf(&b, `{"name":%q,"in":%q`, name, c.Loc)
 	if c.Required {
 		b.WriteString(`,"required":true`)
 	}
@@ -127,6 +129,108 @@ func docOf(idx []int, cs []combo) []byte {
 	return []byte(b.String())
 }
 
+// multiOp: one operation with several parameters. Generated code serves all parameters of a location with one
+// encoder and one decoder object, so what the codec keeps between parameters is part of the exchange.
+func multiOpJSON(i int, names []string, cs []combo) (path, item string) {
+	path = fmt.Sprintf("/mm%d", i)
+	var ps []string
+	for k, c := range cs {
+		if c.Loc == "path" {
+			path += "/{" + names[k] + "}"
+		}
+		ps = append(ps, c.paramJSONNamed(names[k]))
+	}
+	item = fmt.Sprintf(`{"get":{"operationId":"mm%d","parameters":[%s],"responses":{"200":{"description":"ok","content":{"application/json":{"schema":{"type":"object","required":["echo"],"properties":{"echo":{"type":"string"}}}}}}}}}`, i, strings.Join(ps, ","))
+	return
+}
+
+// buildMultiMatrix draws n operations of 2..4 admitted combinations each (PRNG; at least two of one location, arrays
+// preferred), observes admission per operation and packs the admitted ones.
+func buildMultiMatrix(r *ev.Run, opts gen.Options, live []combo, n, perDoc int) []matrixDoc {
+	rng := r.Rand("multi-matrix")
+	names := []string{"p", "q", "s", "t"}
+	type mop struct {
+		cs   []combo
+		path string
+		item string
+	}
+	var cand []combo
+	for _, c := range live {
+		if c.Default == "" && c.Kind != "json-content" {
+			cand = append(cand, c)
+		}
+	}
+	if len(cand) == 0 {
+		return nil
+	}
+	ops := make([]mop, n)
+	for i := range ops {
+		k := 2 + rng.Intn(3)
+		first := cand[rng.Intn(len(cand))]
+		for try := 0; try < 6 && !strings.HasPrefix(first.Kind, "array"); try++ {
+			first = cand[rng.Intn(len(cand))]
+		}
+		cs := []combo{first}
+		objects := 0
+		if strings.HasPrefix(first.Kind, "object") {
+			objects++
+		}
+		for len(cs) < k {
+			c := cand[rng.Intn(len(cand))]
+			if len(cs) == 1 && c.Loc != first.Loc {
+				continue // the second parameter shares the first one's location
+			}
+			if strings.HasPrefix(c.Kind, "object") {
+				if objects > 0 {
+					continue // two exploded objects would claim the same member keys
+				}
+				objects++
+			}
+			cs = append(cs, c)
+		}
+		ops[i].cs = cs
+		ops[i].path, ops[i].item = multiOpJSON(i, names, cs)
+	}
+	doc := func(idx []int) []byte {
+		var b strings.Builder
+		b.WriteString(`{"openapi":"3.0.3","info":{"title":"several parameters per operation","version":"1"},"paths":{`)
+		for k, i := range idx {
+			if k > 0 {
+				b.WriteByte(',')
+			}
+			fmt.Fprintf(&b, "%q:%s", ops[i].path, ops[i].item)
+		}
+		b.WriteString("}}")
+		return []byte(b.String())
+	}
+	admitted := make([]bool, n)
+	ev.Parallel(n, runtime.NumCPU(), func(i int) {
+		admitted[i] = genlab.GenerateIR(doc([]int{i}), opts).OK()
+	})
+	var ok []int
+	for i, a := range admitted {
+		if a {
+			ok = append(ok, i)
+		}
+	}
+	r.Set("multi_parameter_operations_drawn", n)
+	r.Set("multi_parameter_operations_admitted", len(ok))
+	var out []matrixDoc
+	for lo := 0; lo < len(ok); lo += perDoc {
+		hi := min(lo+perDoc, len(ok))
+		md := matrixDoc{Spec: doc(ok[lo:hi]), Defaults: map[string]map[string]string{}, Combos: map[string]string{}}
+		for _, i := range ok[lo:hi] {
+			var d []string
+			for _, c := range ops[i].cs {
+				d = append(d, fmt.Sprintf("%s style=%q explode=%q %s required=%v", c.Loc, c.Style, c.Explode, c.Kind, c.Required))
+			}
+			md.Combos["GET "+ops[i].path] = strings.Join(d, " + ")
+		}
+		out = append(out, md)
+	}
+	return out
+}
+
 type matrixDoc struct {
 	Spec     []byte
 	Defaults map[string]map[string]string // "GET /path" -> ".P" -> wanted Descr
@@ -134,7 +238,7 @@ type matrixDoc struct {
 }
 
 // buildMatrix observes admission per combination and packs the admitted ones.
-func buildMatrix(r *ev.Run, opts gen.Options, perDoc int) []matrixDoc {
+func buildMatrix(r *ev.Run, opts gen.Options, perDoc int) ([]matrixDoc, []combo) {
 	cs := allCombos()
 	admitted := make([]bool, len(cs))
 	ev.Parallel(len(cs), runtime.NumCPU(), func(i int) {
@@ -166,5 +270,9 @@ func buildMatrix(r *ev.Run, opts gen.Options, perDoc int) []matrixDoc {
 		}
 		out = append(out, md)
 	}
-	return out
+	var liveCombos []combo
+	for _, i := range live {
+		liveCombos = append(liveCombos, cs[i])
+	}
+	return out, liveCombos
 }
